@@ -23,8 +23,74 @@ type deferred struct {
 	frame int
 }
 
+// PC is a persistent list of path facts; joins factor out the common prefix.
+type PC struct {
+	parent *PC
+	fact   *Term
+	depth  int
+	cache  *Term
+}
+
+func (p *PC) add(c *Term) *PC {
+	d := 1
+	if p != nil {
+		d = p.depth + 1
+	}
+	return &PC{parent: p, fact: c, depth: d}
+}
+
+func (p *PC) term() *Term {
+	if p == nil {
+		return True
+	}
+	if p.cache != nil {
+		return p.cache
+	}
+	var fs []*Term
+	for x := p; x != nil; x = x.parent {
+		if x.cache != nil {
+			fs = append(fs, x.cache)
+			break
+		}
+		fs = append(fs, x.fact)
+	}
+	p.cache = And(fs...)
+	return p.cache
+}
+
+func pcLCA(a, b *PC) *PC {
+	da, db := 0, 0
+	if a != nil {
+		da = a.depth
+	}
+	if b != nil {
+		db = b.depth
+	}
+	for da > db {
+		a = a.parent
+		da--
+	}
+	for db > da {
+		b = b.parent
+		db--
+	}
+	for a != b {
+		a, b = a.parent, b.parent
+	}
+	return a
+}
+
+func pcDelta(p, anc *PC) *Term {
+	var fs []*Term
+	for x := p; x != anc; x = x.parent {
+		fs = append(fs, x.fact)
+	}
+	return And(fs...)
+}
+
 type State struct {
-	pc     *Term
+	pc     *PC
+	dead   bool
 	cells  map[cellKey][]*Term
 	clos   map[cellKey]*Closure
 	caddr  map[cellKey]*Addr // cells holding non-storable pointers
@@ -34,7 +100,7 @@ type State struct {
 }
 
 func (s *State) clone() *State {
-	n := &State{pc: s.pc, cells: make(map[cellKey][]*Term, len(s.cells)), mems: make(map[string]*Mem, len(s.mems)),
+	n := &State{pc: s.pc, dead: s.dead, cells: make(map[cellKey][]*Term, len(s.cells)), mems: make(map[string]*Mem, len(s.mems)),
 		clos: map[cellKey]*Closure{}, caddr: map[cellKey]*Addr{}, ghost: map[string]*Term{}}
 	for k, v := range s.cells {
 		n.cells[k] = v
@@ -55,7 +121,17 @@ func (s *State) clone() *State {
 	return n
 }
 
-func (s *State) assume(c *Term) { s.pc = And(s.pc, c) }
+func (s *State) assume(c *Term) {
+	if c == True {
+		return
+	}
+	if c == False {
+		s.dead = true
+	}
+	s.pc = s.pc.add(c)
+}
+
+func (s *State) kill() { s.dead = true }
 
 type Obligation struct {
 	Name  string
@@ -125,6 +201,13 @@ type Engine struct {
 	strLitIDs map[string]uint64
 	unrolls map[string]*ssa.Function
 	topPkg string
+	forceOrdinal int
+	oblNames map[string]bool
+	trueInv *ssa.Function
+	loopSeq int
+	noFrameDiscovery bool
+	lenient bool
+	initPkg *ssa.Package
 	oblCounts map[string]int
 	unfolding map[*ssa.Function]int
 }
@@ -139,7 +222,7 @@ func NewEngine(prog *ssa.Program) *Engine {
 		contracts: map[*ssa.Function]*ssa.Function{}, invs: map[string]*ssa.Function{}, decs: map[string]*ssa.Function{},
 		assumedExterns: map[string]bool{}, inlined: map[string]bool{}, usedContracts: map[string]bool{}, fieldIDs: map[string]uint64{},
 		globalsRO: map[*ssa.Global][]*Term{}, unfoldFuel: 1, specUF: map[string]bool{}, axiomSeen: map[string]bool{},
-		strLitIDs: map[string]uint64{}, oblCounts: map[string]int{}, unfolding: map[*ssa.Function]int{}, unrolls: map[string]*ssa.Function{}, typeTags: map[string]uint64{}, ifaceVals: map[int]ifaceVal{}, maxDepth: 12, quantVars: map[string]*quantInfo{}}
+		strLitIDs: map[string]uint64{}, oblNames: map[string]bool{}, oblCounts: map[string]int{}, unfolding: map[*ssa.Function]int{}, unrolls: map[string]*ssa.Function{}, typeTags: map[string]uint64{}, ifaceVals: map[int]ifaceVal{}, maxDepth: 12, quantVars: map[string]*quantInfo{}}
 }
 
 func (e *Engine) warn(format string, a ...interface{}) {
@@ -155,7 +238,11 @@ func (e *Engine) warn(format string, a ...interface{}) {
 // ---------- memory naming ----------
 
 func elemMemName(elem types.Type, leaf Leaf) string {
-	return "elem:" + typeKey(elem.Underlying()) + "/" + leaf.path
+	u := elem.Underlying()
+	if b, ok := u.(*types.Basic); ok {
+		u = types.Typ[b.Kind()]
+	}
+	return "elem:" + typeKey(u) + "/" + leaf.path
 }
 func objMemName(root types.Type, leaf Leaf) string {
 	return "obj:" + typeKey(root) + "/" + leaf.path
@@ -281,6 +368,13 @@ func (e *Engine) oblige(fr *Frame, st *State, kind string, instr ssa.Instruction
 	base := fmt.Sprintf("%s%s#%s", fr.prefix, fnName(fr.fn), k)
 	e.oblCounts[base]++
 	name := fmt.Sprintf("%s@%d", base, e.oblCounts[base])
+	if e.forceOrdinal > 0 {
+		name = fmt.Sprintf("%s@%d", base, e.forceOrdinal)
+		if e.oblNames[name] {
+			name = fmt.Sprintf("%s@%d.%d", base, e.forceOrdinal, e.oblCounts[base])
+		}
+	}
+	e.oblNames[name] = true
 	var pos token.Position
 	if instr != nil {
 		pos = e.prog.Fset.Position(instr.Pos())
@@ -298,7 +392,7 @@ func (e *Engine) oblige(fr *Frame, st *State, kind string, instr ssa.Instruction
 			}
 		}
 	}
-	e.obls = append(e.obls, &Obligation{Name: name, Kind: k, Fn: fnName(fr.fn), Pos: pos, hyp: st.pc, goal: goal, Desc: desc, Props: e.props})
+	e.obls = append(e.obls, &Obligation{Name: name, Kind: k, Fn: fnName(fr.fn), Pos: pos, hyp: st.pc.term(), goal: goal, Desc: desc, Props: e.props})
 }
 
 func fnName(fn *ssa.Function) string {
@@ -459,6 +553,9 @@ func (e *Engine) load(fr *Frame, st *State, a *Addr, instr ssa.Instruction) Valu
 		e.assumeWF(st, out, t)
 		return e.unflat(out, t)
 	case AGlobal:
+		if e.lenient && a.global.Name() == "init$guard" {
+			return scalar(False)
+		}
 		if ro, ok := e.globalsRO[a.global]; ok {
 			n := nLeaves(t)
 			return e.unflat(ro[a.off:a.off+n], t)
@@ -1079,15 +1176,25 @@ func blockPos(b *ssa.BasicBlock) token.Pos {
 	return best
 }
 
-func mergeStates(sts []*State) *State {
+// mergeStates joins states; conds[i] is the condition (relative to the common
+// path prefix) under which state i is the one taken.
+func mergeStates(sts []*State) (*State, []*Term) {
 	if len(sts) == 1 {
-		return sts[0]
+		return sts[0], []*Term{True}
 	}
-	// fold from the last: ite(pc1, s1, ite(pc2, s2, ... sN))
+	anc := sts[0].pc
+	for _, s := range sts[1:] {
+		anc = pcLCA(anc, s.pc)
+	}
+	conds := make([]*Term, len(sts))
+	for i, s := range sts {
+		conds[i] = pcDelta(s.pc, anc)
+	}
+	// fold from the last: ite(c1, s1, ite(c2, s2, ... sN))
 	res := sts[len(sts)-1].clone()
 	for i := len(sts) - 2; i >= 0; i-- {
 		a := sts[i]
-		c := a.pc
+		c := conds[i]
 		n := res
 		for k, av := range a.cells {
 			bv, ok := n.cells[k]
@@ -1141,15 +1248,14 @@ func mergeStates(sts []*State) *State {
 				n.ghost[k] = Ite(c, ag, bg)
 			}
 		}
-		n.pc = Or(a.pc, n.pc)
-		if len(a.defers) != len(n.defers) {
-			// keep the longer common prefix only when identical, else unsupported
-			if len(a.defers) > len(n.defers) {
-				n.defers = a.defers
-			}
+		if len(a.defers) > len(n.defers) {
+			n.defers = a.defers
 		}
 	}
-	return res
+	res.pc = anc
+	res.dead = false
+	res.assume(Or(conds...))
+	return res, conds
 }
 
 // execFunc symbolically executes fn from state st and returns its return points.
@@ -1196,10 +1302,11 @@ func (e *Engine) execRegion(fr *Frame, li *loopInfo, st *State, rets *[]retPoint
 			continue
 		}
 		var live []*State
+		var liveEdge []int // index into b.Preds, -1 for the region entry
 		if b == entry {
 			live = append(live, st)
+			liveEdge = append(liveEdge, -1)
 		}
-		perPred := make([]*State, len(b.Preds))
 		for i, p := range b.Preds {
 			k := edgeKey{p.Index, b.Index}
 			ss := rc.out[k]
@@ -1207,32 +1314,39 @@ func (e *Engine) execRegion(fr *Frame, li *loopInfo, st *State, rets *[]retPoint
 				continue
 			}
 			delete(rc.out, k)
+			dup := false
+			for j := 0; j < i; j++ {
+				if b.Preds[j] == p {
+					dup = true
+				}
+			}
+			if dup {
+				continue
+			}
 			var l2 []*State
 			for _, s := range ss {
-				if s.pc != False {
+				if !s.dead {
 					l2 = append(l2, s)
 				}
 			}
 			if len(l2) == 0 {
 				continue
 			}
-			m := mergeStates(l2)
-			perPred[i] = m
+			m, _ := mergeStates(l2)
 			live = append(live, m)
+			liveEdge = append(liveEdge, i)
 		}
 		if len(live) == 0 {
 			continue
 		}
-		// phis select on the path condition of the incoming edge: evaluate before merging
-		var phiVals map[*ssa.Phi]Value
+		cur, conds := mergeStates(live)
+		// phis select on the condition of the incoming edge
 		if len(b.Instrs) > 0 && b != entry {
 			if _, ok := b.Instrs[0].(*ssa.Phi); ok {
-				phiVals = e.evalPhis(fr, b, perPred)
+				for p, v := range e.evalPhis(fr, b, liveEdge, conds) {
+					fr.regs[p] = v
+				}
 			}
-		}
-		cur := mergeStates(live)
-		for p, v := range phiVals {
-			fr.regs[p] = v
 		}
 		if l2 := fr.loops[b]; l2 != nil && l2 != li {
 			if n := e.unrollCount(fr, l2); n > 0 {
@@ -1244,14 +1358,14 @@ func (e *Engine) execRegion(fr *Frame, li *loopInfo, st *State, rets *[]retPoint
 					}
 					var lb []*State
 					for _, s := range bk {
-						if s.pc != False {
+						if !s.dead {
 							lb = append(lb, s)
 						}
 					}
 					if len(lb) == 0 {
 						break
 					}
-					cur = mergeStates(lb)
+					cur, _ = mergeStates(lb)
 					if it+1 >= n {
 						e.oblige(fr, cur, "unwind", b.Instrs[0], False, fmt.Sprintf("loop %d not exhausted after %d iterations", l2.ord, n))
 						break
@@ -1314,7 +1428,7 @@ func rpoRegion(entry *ssa.BasicBlock, blocks map[*ssa.BasicBlock]bool) []*ssa.Ba
 	return post
 }
 
-func (e *Engine) evalPhis(fr *Frame, b *ssa.BasicBlock, perPred []*State) map[*ssa.Phi]Value {
+func (e *Engine) evalPhis(fr *Frame, b *ssa.BasicBlock, liveEdge []int, conds []*Term) map[*ssa.Phi]Value {
 	res := map[*ssa.Phi]Value{}
 	for _, in := range b.Instrs {
 		phi, ok := in.(*ssa.Phi)
@@ -1324,18 +1438,17 @@ func (e *Engine) evalPhis(fr *Frame, b *ssa.BasicBlock, perPred []*State) map[*s
 		var acc Value
 		first := true
 		t := phi.Type()
-		for i := len(b.Preds) - 1; i >= 0; i-- {
-			s := perPred[i]
-			if s == nil {
+		for i := len(liveEdge) - 1; i >= 0; i-- {
+			if liveEdge[i] < 0 {
 				continue
 			}
-			v := e.val(fr, phi.Edges[i])
+			v := e.val(fr, phi.Edges[liveEdge[i]])
 			if first {
 				acc = v
 				first = false
 				continue
 			}
-			acc = e.iteValue(s.pc, v, acc, t)
+			acc = e.iteValue(conds[i], v, acc, t)
 		}
 		res[phi] = acc
 	}
@@ -1362,7 +1475,7 @@ func (e *Engine) iteValue(c *Term, a, b Value, t types.Type) Value {
 
 func (e *Engine) execBlock(fr *Frame, b *ssa.BasicBlock, st *State, rc *regionCtx, rets *[]retPoint) {
 	for _, in := range b.Instrs {
-		if st.pc == False {
+		if st.dead {
 			return
 		}
 		switch x := in.(type) {
@@ -1388,11 +1501,11 @@ func (e *Engine) execBlock(fr *Frame, b *ssa.BasicBlock, st *State, rc *regionCt
 			return
 		case *ssa.Panic:
 			if fr.fn.Name() == "requires" || isIntrinsicPanic(fr.fn) {
-				st.pc = False
+				st.kill()
 				return
 			}
 			e.oblige(fr, st, "panic", in, False, "explicit panic reachable")
-			st.pc = False
+			st.kill()
 			return
 		default:
 			e.execInstr(fr, st, in)
@@ -1416,6 +1529,34 @@ func (e *Engine) edge(fr *Frame, rc *regionCtx, from, to *ssa.BasicBlock, s *Sta
 }
 
 func (e *Engine) execInstr(fr *Frame, st *State, in ssa.Instruction) {
+	if !e.lenient {
+		e.execInstr1(fr, st, in)
+		return
+	}
+	defer func() {
+		if r := recover(); r != nil {
+			if _, ok := r.(unsupported); !ok {
+				if _, ok2 := r.(contractError); !ok2 {
+					panic(r)
+				}
+			}
+			// lenient mode: the instruction yields an arbitrary value
+			if v, ok := in.(ssa.Value); ok {
+				func() {
+					defer func() { recover() }()
+					t := v.Type()
+					if _, isTuple := t.(*types.Tuple); isTuple || t != nil {
+						ts := freshTerms("lenient", t)
+						fr.regs[v] = e.unflat(ts, t)
+					}
+				}()
+			}
+		}
+	}()
+	e.execInstr1(fr, st, in)
+}
+
+func (e *Engine) execInstr1(fr *Frame, st *State, in ssa.Instruction) {
 	switch x := in.(type) {
 	case *ssa.DebugRef, *ssa.Phi:
 	case *ssa.Alloc:
